@@ -14,6 +14,8 @@ import (
 func init() {
 	f := "internal/lsp/server_text_sync.go"
 	register(&Property{ID: "C21", Run: runC21, Mutants: []Mutant{
+		{Name: "range end computed from the column delta on an ASCII fast path", File: "internal/lsp/protocol/mapper.go", Old: "\tend, err := m.PositionOffset(r.End)\n\tif err != nil {\n\t\treturn 0, 0, err\n\t}\n\treturn start, end, nil", New: "\tif !m.nonASCII && r.End.Line == r.Start.Line && r.End.Character >= r.Start.Character {\n\t\tend := start + int(r.End.Character-r.Start.Character)\n\t\tif end > len(m.Content) {\n\t\t\treturn 0, 0, fmt.Errorf(\"column is beyond end of file\")\n\t\t}\n\t\treturn start, end, nil\n\t}\n\tend, err := m.PositionOffset(r.End)\n\tif err != nil {\n\t\treturn 0, 0, err\n\t}\n\treturn start, end, nil", Expect: "range-end-validated"},
+		{Name: "rangeLength (UTF-16 units) compared with the byte length of the range", File: f, Old: "\t\tvar buf bytes.Buffer\n\t\tbuf.Write(content[:start])", New: "\t\tif change.RangeLength != 0 && int(change.RangeLength) != end-start {\n\t\t\treturn nil, fmt.Errorf(\"%w: range length mismatch\", jsonrpc2.ErrInternal)\n\t\t}\n\t\tvar buf bytes.Buffer\n\t\tbuf.Write(content[:start])", Expect: "utf16-byte-mixing"},
 		{Name: "an empty change list empties the document", File: "internal/lsp/server_text_sync.go", Old: "\t\treturn nil, fmt.Errorf(\"%w: no content changes provided\", jsonrpc2.ErrInternal)", New: "\t\treturn nil, nil", Expect: "change-result-is-text"},
 		{Name: "didOpen keeps the text of an earlier session", File: "internal/lsp/server_text_sync.go", Old: "\tp.fileMap[params.TextDocument.URI.Path()] = params.TextDocument.Text\n", New: "\tif _, ok := p.fileMap[params.TextDocument.URI.Path()]; !ok {\n\t\tp.fileMap[params.TextDocument.URI.Path()] = params.TextDocument.Text\n\t}\n", Expect: "open-replaces-text"},
 		{Name: "a valid U+FFFD is taken for invalid UTF-8", File: "internal/lsp/protocol/mapper.go", Old: "if sz == 1 && r == utf8.RuneError {", New: "if r == utf8.RuneError {", Expect: "invalid-utf8-test"},
@@ -56,6 +58,7 @@ func runC21(c *Ctx) {
 		return
 	}
 	c21SyncExtra(c, p, pk)
+	c21Units(c, p, pk, p.MustPkg("range-end-validated", "internal/lsp/protocol"))
 	{
 		var lspPkgs []*packages.Package
 		for rel, q := range p.All {
@@ -165,33 +168,45 @@ func runC21(c *Ctx) {
 		if store == nil {
 			c.Fail(r3, "DidChange: successful path stores", p.Pos(dc.Pos()), "DidChange never stores the changed text: the server's copy stays at the opened version")
 		}
-		var test *ErrTest
+		// The text producers: calls into the package whose first result flows (through conversions and phis) into the
+		// stored value, whatever they are called — today changedText, which may be inlined into DidChange, in which
+		// case applyIncrementalChanges is the producer and the full-text change is read in place.
+		producers, otherRoots := c21TextProducers(store)
+		textProducerCalls = producers
+		var tests []ErrTest
 		for _, t := range errTests(dc) {
-			if strings.HasSuffix(describeErrSource(t.Err), "LSPServer.changedText") {
-				tt := t
-				test = &tt
-			}
-		}
-		if store == nil || test == nil {
-			c.Fail(r2, "DidChange: store vs changedText error", p.Pos(dc.Pos()), "the store or the error test on changedText was not found")
-		} else {
-			allDom := len(test.Nil.Preds) == 1
-			for _, st := range stores {
-				if !test.Nil.Dominates(st.Block()) {
-					allDom = false
+			if ex, ok := t.Err.(*ssa.Extract); ok {
+				if call, ok := ex.Tuple.(*ssa.Call); ok && producers[call] {
+					tests = append(tests, t)
 				}
 			}
-			c.Check(allDom, r2, "DidChange: store vs changedText error", p.Pos(store.Pos()), "every store is dominated by err == nil", "the document is stored on a path where changedText returned an error: an invalid range corrupts the stored text")
-			// the stored value is the text returned by changedText
-			okVal := false
-			if cv, ok := store.Value.(*ssa.Convert); ok {
-				if ex, ok := cv.X.(*ssa.Extract); ok && ex.Index == 0 {
-					if call, ok := ex.Tuple.(*ssa.Call); ok && strings.HasSuffix(calleeName(&call.Call), "LSPServer.changedText") {
-						okVal = true
+		}
+		if store == nil || len(producers) == 0 || len(tests) < len(producers) {
+			c.Fail(r2, "DidChange: store vs changedText error", p.Pos(dc.Pos()), fmt.Sprintf("the store, or the error test on the call that computes the stored text, was not found (%d producing calls, %d tested)", len(producers), len(tests)))
+		} else {
+			// no store is reachable from the failing outcome of a producer
+			allDom := true
+			for _, test := range tests {
+				if test.Ignored {
+					allDom = false
+				}
+				for _, st := range stores {
+					if blockReaches(test.NonNil, st.Block()) {
+						allDom = false
 					}
 				}
 			}
-			c.Check(okVal, r2, "DidChange: stored value", p.Pos(store.Pos()), "stores the text returned by changedText", "the stored value is not the text computed by changedText")
+			// … and none before the outcome was tested
+			for pc := range producers {
+				for _, st := range stores {
+					if storeAfterUntestedProducer(pc, tests, st) {
+						allDom = false
+					}
+				}
+			}
+			c.Check(allDom, r2, "DidChange: store vs changedText error", p.Pos(store.Pos()), "no store is reachable once the computation of the text failed", "the document is stored on a path where computing the changed text returned an error: an invalid range corrupts the stored text")
+			// the stored value is the computed text (or the full text of the only change)
+			c.Check(len(otherRoots) == 0, r2, "DidChange: stored value", p.Pos(store.Pos()), "stores the text computed from the change", "the stored value is not only the text computed from the change: it can also be "+strings.Join(otherRoots, ", "))
 			// (3) all nil-returning paths pass through the store
 			outs := walkPaths(dc.Blocks[0], 5000)
 			nOK := 0
@@ -207,8 +222,10 @@ func runC21(c *Ctx) {
 					}
 				}
 				for _, cc := range o.Calls {
-					if strings.HasSuffix(calleeName(cc), "LSPServer.changedText") {
-						calledChanged = true
+					for pc := range producers {
+						if cc == &pc.Call {
+							calledChanged = true
+						}
 					}
 				}
 				if through {
@@ -225,26 +242,70 @@ func runC21(c *Ctx) {
 		}
 	}
 
+	c21ChangeResult(c, p, pk)
+
 	// (5) applyIncrementalChanges
-	ai := p.SSAFunc(pk, "LSPServer.applyIncrementalChanges")
+	ai :=p.SSAFunc(pk, "LSPServer.applyIncrementalChanges")
 	if ai == nil {
 		c.Undecided(r5, "anchor:LSPServer.applyIncrementalChanges", "", "does not resolve")
 		return
 	}
 	// fresh copy: content starts as a string->[]byte conversion of the cache lookup
-	var phi *ssa.Phi
-	var newMapper *ssa.Call
+	// The per-change work may sit in the loop body or in a helper of the package the loop calls
+	// (`updated, err := applyContentChange(uri, content, &changes[i])`): the rules read the function and the helpers
+	// it calls directly; what a rule finds in a helper is carried to the call site (parameter -> argument, returned
+	// value -> extracted result, returned error -> tested and returned by the caller).
+	funcs := []*ssa.Function{ai}
+	siteOf := map[*ssa.Function]*ssa.Call{}
 	for _, b := range ai.Blocks {
 		for _, ins := range b.Instrs {
-			if call, ok := ins.(*ssa.Call); ok && strings.HasSuffix(calleeName(&call.Call), "protocol.NewMapper") {
-				newMapper = call
+			if call, ok := ins.(*ssa.Call); ok {
+				if g := call.Call.StaticCallee(); g != nil && g != ai && g.Pkg == ai.Pkg && len(g.Blocks) > 0 && siteOf[g] == nil {
+					funcs = append(funcs, g)
+					siteOf[g] = call
+				}
 			}
 		}
+	}
+	var phi *ssa.Phi
+	var newMapper *ssa.Call
+	var mapperIn *ssa.Function
+	for _, f := range funcs {
+		for _, b := range f.Blocks {
+			for _, ins := range b.Instrs {
+				if call, ok := ins.(*ssa.Call); ok && strings.HasSuffix(calleeName(&call.Call), "protocol.NewMapper") {
+					newMapper, mapperIn = call, f
+				}
+			}
+		}
+	}
+	// returnsBytes: some return of g answers buffer.Bytes() as its first result
+	returnsBytes := func(g *ssa.Function) bool {
+		for _, b := range g.Blocks {
+			if r, ok := b.Instrs[len(b.Instrs)-1].(*ssa.Return); ok && len(r.Results) > 0 {
+				if call, ok := r.Results[0].(*ssa.Call); ok && strings.HasSuffix(calleeName(&call.Call), "bytes.Buffer.Bytes") {
+					return true
+				}
+			}
+		}
+		return false
 	}
 	if newMapper == nil {
 		c.Fail(r5, "applyIncrementalChanges: NewMapper", p.Pos(ai.Pos()), "no position mapper is built")
 	} else {
 		arg := newMapper.Call.Args[1]
+		loopSite := newMapper
+		if mapperIn != ai {
+			// the helper must build the mapper from a parameter; the caller's argument is what counts
+			if prm, ok := arg.(*ssa.Parameter); ok {
+				for k, q := range mapperIn.Params {
+					if q == prm && k < len(siteOf[mapperIn].Call.Args) {
+						arg = siteOf[mapperIn].Call.Args[k]
+					}
+				}
+			}
+			loopSite = siteOf[mapperIn]
+		}
 		phi, _ = arg.(*ssa.Phi)
 		good := false
 		detail := "the mapper is not built from the loop-carried content"
@@ -260,6 +321,12 @@ func runC21(c *Ctx) {
 					if strings.HasSuffix(calleeName(&x.Call), "bytes.Buffer.Bytes") {
 						fromBuf = true
 					}
+				case *ssa.Extract:
+					if call, ok := x.Tuple.(*ssa.Call); ok && x.Index == 0 {
+						if g := call.Call.StaticCallee(); g != nil && siteOf[g] != nil && returnsBytes(g) {
+							fromBuf = true
+						}
+					}
 				}
 			}
 			good = fromCopy && fromBuf
@@ -272,10 +339,10 @@ func runC21(c *Ctx) {
 		}
 		// the call must be inside the loop: its block is reachable from itself
 		inLoop := false
-		if newMapper.Block() != nil {
+		if loopSite.Block() != nil {
 			seen := map[*ssa.BasicBlock]bool{}
 			var q []*ssa.BasicBlock
-			q = append(q, newMapper.Block().Succs...)
+			q = append(q, loopSite.Block().Succs...)
 			for len(q) > 0 {
 				b := q[0]
 				q = q[1:]
@@ -283,7 +350,7 @@ func runC21(c *Ctx) {
 					continue
 				}
 				seen[b] = true
-				if b == newMapper.Block() {
+				if b == loopSite.Block() {
 					inLoop = true
 				}
 				q = append(q, b.Succs...)
@@ -293,7 +360,11 @@ func runC21(c *Ctx) {
 	}
 	// splice order within one block: Write(content[:start]) ; WriteString(change.Text) ; Write(content[end:])
 	var seq []string
-	for _, b := range ai.Blocks {
+	var allBlocks []*ssa.BasicBlock
+	for _, f := range funcs {
+		allBlocks = append(allBlocks, f.Blocks...)
+	}
+	for _, b := range allBlocks {
 		var local []string
 		for _, ins := range b.Instrs {
 			call, ok := ins.(*ssa.Call)
@@ -323,7 +394,8 @@ func runC21(c *Ctx) {
 	c.Check(strings.Join(seq, ",") == "prefix,text,suffix", r6, "applyIncrementalChanges: splice", p.Pos(ai.Pos()), "content[:start] + change.Text + content[end:]", fmt.Sprintf("the new content is assembled as %v; it must be prefix, replacement text, suffix", seq))
 	// range rejection: `end < start` and nil range lead to a non-nil error return
 	rej := 0
-	for _, b := range ai.Blocks {
+	rejIn := map[*ssa.Function]bool{}
+	for _, b := range allBlocks {
 		ifi, ok := b.Instrs[len(b.Instrs)-1].(*ssa.If)
 		if !ok {
 			continue
@@ -351,11 +423,41 @@ func runC21(c *Ctx) {
 			}
 		}
 		rej++
+		rejIn[b.Parent()] = true
 		what := "end < start"
 		if isNilRange {
 			what = "nil range"
 		}
 		c.Check(!bad, r7, "applyIncrementalChanges: "+what, instrPos(p, ifi, b), "rejected with an error", "an invalid change ("+what+") is not rejected with an error on every path")
+	}
+	// a rejection made in a helper counts only if the loop turns the helper's error into its own
+	for g := range rejIn {
+		if g == ai {
+			continue
+		}
+		site := siteOf[g]
+		propagated := false
+		for _, b := range ai.Blocks {
+			ifi, ok := b.Instrs[len(b.Instrs)-1].(*ssa.If)
+			if !ok {
+				continue
+			}
+			bo, ok := ifi.Cond.(*ssa.BinOp)
+			if !ok || bo.Op != token.NEQ || !isNilConst(bo.Y) {
+				continue
+			}
+			ex, ok := bo.X.(*ssa.Extract)
+			if !ok || ex.Tuple != ssa.Value(site) {
+				continue
+			}
+			propagated = true
+			for _, o := range walkPaths(b.Succs[0], 200) {
+				if o.Kind != "return" || o.Val == nil || isNilConst(o.Val) {
+					propagated = false
+				}
+			}
+		}
+		c.Check(propagated, r7, "applyIncrementalChanges: error of "+g.Name()+" is returned", p.Pos(site.Pos()), "tested and returned", "the rejection is made in "+g.Name()+" but applyIncrementalChanges does not return its error on every path: the invalid change is applied (or dropped) silently")
 	}
 	c.Check(rej >= 2, r7, "applyIncrementalChanges: invalid-range tests present", p.Pos(ai.Pos()), fmt.Sprintf("%d rejection tests", rej), fmt.Sprintf("only %d of the two rejection tests (nil range, end < start) remain: an invalid range is spliced into the stored text", rej))
 }
